@@ -38,6 +38,7 @@ type Task struct {
 	released bool
 	resumed  bool // parked by Resume (woke from a blocking operation), not by preemption
 	waitOn   unsafe.Pointer
+	condWait bool // waiting in a simulated sync.Cond
 	tracked  bool // created through Go: completion is known
 }
 
@@ -81,6 +82,7 @@ type Sim struct {
 	end      time.Time
 	locks    map[unsafe.Pointer]*lockState
 	pools    map[*sync.Pool][]any
+	conds    map[unsafe.Pointer][]*Task
 	schedSig uint64
 	switches int
 	// targeted preemption: in some runs one yield site (the hotK-th distinct site
@@ -134,6 +136,7 @@ func Run(t *testing.T, tape *Tape, cfg Config, main func(s *Sim)) *Sim {
 		byGid:    map[uint64]*Task{},
 		locks:    map[unsafe.Pointer]*lockState{},
 		pools:    map[*sync.Pool][]any{},
+		conds:    map[unsafe.Pointer][]*Task{},
 		Counters: map[string]int{},
 		logHash:  14695981039346656037,
 		schedSig: 14695981039346656037,
